@@ -220,6 +220,10 @@ func transitions(p *obsProg, full bool) {
 		p.do(model.Op{K: model.OpAddBatch, Path: model.PathMapN, F: 4 + 1, Cs: ct.Of(ct.R1), T: rel(ct.R1, t1)})
 		p.do(model.Op{K: model.OpExchangeBatch, F: 2, Cs: ct.Of(ct.Q), Rm: ct.Of(ct.R1, ct.P)})
 		p.do(model.Op{K: model.OpRemoveEntities, F: 1, Fn: round == 1})
+		// one batch removal spanning a table without relations (older archetype) and tables with relations
+		p.do(model.Op{K: model.OpNew, Path: model.PathUnsafe, Cs: ct.Of(ct.P)})
+		p.do(model.Op{K: model.OpNew, Path: model.PathUnsafe, Cs: ct.Of(ct.P, ct.R1), T: rel(ct.R1, t2)})
+		p.do(model.Op{K: model.OpNew, Path: model.PathUnsafe, Cs: ct.Of(ct.P, ct.Q, ct.R1), T: rel(ct.R1, t1)})
 		p.do(model.Op{K: model.OpRemoveEntities, F: 3})
 		if p.v != nil {
 			return
@@ -230,9 +234,10 @@ func transitions(p *obsProg, full bool) {
 }
 
 type obsCase struct {
-	Specs []model.ObsSpec
-	Plan  int // 0: register all, run; 1: + unregister first, run, re-register, run; 2: reverse registration order + unregister last
-	Full  bool
+	Specs  []model.ObsSpec
+	Offset int // component-ID offset (dummy types registered first)
+	Plan   int // 0: register all, run; 1: + unregister first, run, re-register, run; 2: reverse registration order + unregister last
+	Full   bool
 }
 
 type obsFound struct {
@@ -242,7 +247,7 @@ type obsFound struct {
 }
 
 func runObsCase(c obsCase) *obsFound {
-	cfg := drv.Config{Cap: 2, Universe: obsUniverse}
+	cfg := drv.Config{Cap: 2, Universe: obsUniverse, Offset: c.Offset}
 	x := drv.NewWorld(cfg, obsFilters(), c.Specs, 1, drv.Oracle{Events: true})
 	p := &obsProg{x: x}
 	n := len(c.Specs)
@@ -356,6 +361,14 @@ func init() {
 					}
 					for _, s := range obsSpecs(ev, u) {
 						emit(obsCase{Specs: []model.ObsSpec{s}, Plan: 0, Full: true})
+					}
+				}
+				// component IDs in the upper mask words: singles over {P,R1} and {P,Q} at offset 190 (IDs 190..194)
+				for _, ev := range events {
+					for _, uu := range [][]ct.Comp{{ct.P, ct.R1}, {ct.P, ct.Q}} {
+						for _, s := range obsSpecs(ev, uu) {
+							emit(obsCase{Specs: []model.ObsSpec{s}, Plan: 0, Offset: 190})
+						}
 					}
 				}
 				// ordered pairs
@@ -507,6 +520,7 @@ func init() {
 					if !m.Ents[e].Comps.Has(ct.Q) {
 						ops = append(ops, model.Op{K: model.OpAdd, Path: path, E: e, Cs: ct.Of(ct.Q)})
 						ops = append(ops, model.Op{K: model.OpExchange, Path: path, E: e, Cs: ct.Of(ct.Q), Rm: ct.Of(ct.P), Init: model.InitFn})
+						ops = append(ops, model.Op{K: model.OpExchange, Path: path, E: e, Cs: ct.Of(ct.Q, ct.T9), Rm: ct.Of(ct.P)})
 					} else {
 						ops = append(ops, model.Op{K: model.OpRemove, Path: path, E: e, Rm: ct.Of(ct.Q)})
 					}
@@ -545,7 +559,7 @@ func init() {
 				Oracle:   drv.Oracle{World: true, Events: true, InCb: true, Lock: true},
 				Preludes: pre,
 				Alphabet: concat(relAlphabet(relOpts{path: path, maxAlive: 6, batch: true, two: path == model.PathMapN, nTargets: 2}), extra(path)),
-				Depth:    d,
+				Depth:    map[bool]int{true: d, false: d - 1}[path == model.PathMapN || t == Thorough],
 			})
 		}
 		// only relation observers registered (no entity/component observers): other lock decisions
